@@ -10,7 +10,7 @@ import gen as G             # noqa: E402
 import gtree as T           # noqa: E402
 
 PROP = "C15"
-DEPS = ["Spec/Ebnf.v", "Proofs/Recog.v", "Model/Memo.v", "Proofs/RecogMemo.v", "Gen/Grammar.v"]
+DEPS = ["Spec/Ebnf.v", "Proofs/Recog.v", "Model/Memo.v", "Proofs/RecogMemo.v", "Gen/Grammar.v", "Gen/Atn.v", "Proofs/GrammarEq.v"]
 
 # one or two representatives per token class that the grammar distinguishes
 ALPHABET = ["Glc", "Hex", "C", "N", "O", "P", "Ac", "A", "I", "Anhydro", "0d", "D", "ol", "a", "p", "1", "2", ",", "-", "(", ")", "[", "]",
